@@ -1128,3 +1128,42 @@ def rule_X7(F, R):
                 R.count('X7:child-list-loops'); R.obligation(ok, 'X7 loop %s' % m.get('loc'))
                 if not ok:
                     R.violation('rsbdd::parser_io::SymbolicParseTree / X7 / child list iteration', 'X7', 'a child list is walked through %s: every element must get its own edge and index (no skipping or de-duplicating adaptor)' % '.'.join(reversed(chain)), m.get('loc'))
+
+# ------------------------------------------------------------------------------------------------ X8 output files
+def rule_X8(F, R, crate_name, kind=None):
+    """the emitted file is exactly the emitted text: every file a binary opens for writing is created truncating (File::create, or
+    OpenOptions with truncate(true)) - opened without truncation an existing longer file keeps its old tail after the new text"""
+    c = F.crate(crate_name, kind) if kind else F.crate(crate_name)
+    if c is None:
+        R.violation('%s / X8 / anchor' % crate_name, 'UNDECIDABLE', 'crate %s not found' % crate_name); return
+    n = 0
+    for name, t in c.ithir.items():
+        if '<Args as clap::' in name or '@inl' in name: continue
+        for e in walk(t['body']):
+            if e['k'] != 'Call': continue
+            cn = callee_name(e) or ''
+            if cn == 'std::fs::File::create':
+                n += 1; R.count('X8:output-files'); R.obligation(True, 'X8 create %s' % e['loc'])
+            elif cn in ('std::fs::OpenOptions::open',) or cn.endswith('OpenOptions::open'):
+                # look at the builder chain this open() is applied to
+                chain = []
+                x = e
+                while x['k'] == 'Call' and x['args']:
+                    chain.append(((callee_name(x) or '').split('::')[-1], x)); x = strip(x['args'][0])
+                names = [m for m, _ in chain]
+                def flag(method):
+                    for m, node in chain:
+                        if m == method and len(node['args']) == 2:
+                            v = strip(node['args'][1])
+                            return v.get('value') if v['k'] == 'Literal' else None
+                    return False
+                writes = flag('write') is True or flag('append') is True or flag('create') is True or flag('create_new') is True
+                if not writes: continue          # opened for reading
+                n += 1
+                ok = flag('truncate') is True or flag('create_new') is True
+                R.count('X8:output-files'); R.obligation(ok, 'X8 open %s' % e['loc'])
+                if not ok:
+                    R.violation('%s / X8 / output file opened without truncation' % name.split('::{closure')[0], 'X8',
+                                'a file opened for writing with %s keeps the tail of an existing longer file: the result is not the emitted text alone' % '.'.join(reversed(names)), e['loc'])
+    if n == 0:
+        R.violation('%s / X8 / VACUITY' % crate_name, 'VACUITY', 'no output file creation found in %s' % crate_name)
